@@ -28,7 +28,7 @@ from gin import config_parser  # pylint: disable=g-import-not-at-top
 ID = 'C06'
 LEVEL = 'exploration'
 ISOLATE = True
-BUDGET = {'quick': (8, 110), 'thorough': (16, 2500)}
+BUDGET = {'quick': (16, 110), 'thorough': (16, 2500)}
 RULE = ('1-12 bindings with unique (scope, configurable, parameter) keys over {a.b.fn, c.b.fn, gn, '
         'Gn, mod.K, mod.K.meth} x scopes {"", s, S, s/t, T/s} + 0-3 macro definitions {M, m, '
         'sc/M}; values: generated literal renderings, long strings (30-200 chars), wide/deep '
